@@ -147,6 +147,13 @@ def pair_space(tier, phase):
         out.extend((x, y) for x in low for y in high)
     # D
     out.extend(d_space(tier, phase))
+    # E: roots with three accidentals (the grammar allows any number of them: Dbbb = B, F### = G#, B### = D,
+    # Cbbb = A), on either side
+    e_menu = ["Dbbb:min", "F###", "B###:7", "Cbbb:maj/3"]
+    e_sides = sides(t0, h, n, 1, e_menu[:2]) + sides(t0, h, n, 2, e_menu)
+    plain = sides(t0, h, n, 1, P6(phase)[:3]) + sides(t0, h, n, 2, P6(phase)[:2])
+    out.extend((x, y) for x in e_sides for y in e_sides[:8] + plain)
+    out.extend((x, y) for x in plain for y in e_sides)
     seen, res = set(), []
     for s in out:
         if s not in seen:
